@@ -1,9 +1,351 @@
-/- C17 - model (stub: not built yet) -/
+/-
+C17 - model of the plugin process runner (plugin/plugin.go, internal/io/limitedwriter.go,
+plugin/proto/errors.go):
+
+ (i)   `LimitedWriter.Write` transcribed, the underlying writer's behaviour being a parameter;
+ (ii)  the decision of `run` / `execCommander.Output`: which error class comes back for which
+       exit status, stdout and stderr, in the order the code checks them;
+ (iii) `validate` + the name check of `CLIPlugin.GetMetadata`;
+ (iv)  an abstract os/exec wait machine (context kill, pipes held open by descendants,
+       `Cmd.WaitDelay`) giving the time at which `cmd.Run()` returns.
+
+The configuration of the command (context bound? WaitDelay? both streams capped?) is not
+written here: it is read from the Go source into `Generated/C17.lean` on every run.
+-/
 import NotationModel.Basic
+import NotationModel.Generated.C17
 open Lean
 
 namespace NotationModel.C17
 
-def judge (_ : Json) : Except String Json := .error "C17: model not built yet"
+/-! ## constants of the property (not of the code) -/
+
+/-- the fixed output cap the property speaks of: 64 MiB -/
+def specCap : Nat := 67108864
+/-- the bounded delay after the end of the context: 5 s … -/
+def specDelayMs : Nat := 5000
+/-- … plus the measuring margin of the harness -/
+def marginMs : Nat := 3000
+
+/-! ## (i) LimitedWriter -/
+
+/-- one `Write(p)` call as seen from outside: `len p`, and what the underlying writer will do
+with the (possibly truncated) slice it is handed: accept at most `accept` bytes, fail or not -/
+structure WStep where
+  len : Nat
+  accept : Nat
+  fail : Bool
+  deriving DecidableEq, Repr, FromJson, ToJson
+
+inductive WErr | ok | limitExceeded | underlying
+  deriving DecidableEq, Repr, FromJson, ToJson
+
+/-- what `Write` returned -/
+structure WOut where
+  n : Nat
+  err : WErr
+  deriving DecidableEq, Repr, FromJson, ToJson
+
+/-- `func (l *LimitedWriter) Write(p []byte) (int, error)`; the state is the remaining count `l.N` -/
+def lwWrite (N : Int) (s : WStep) : Int × WOut :=
+  if N ≤ 0 then (N, ⟨0, .limitExceeded⟩)                       -- if l.N <= 0 { return 0, ErrLimitExceeded }
+  else
+    let m : Nat := if (s.len : Int) > N then N.toNat else s.len  -- if int64(len(p)) > l.N { p = p[:l.N] }
+    let n : Nat := min m s.accept                               -- n, err := l.W.Write(p)
+    (N - (n : Int), ⟨n, if s.fail then .underlying else .ok⟩)    -- l.N -= int64(n); return n, err
+
+/-- a sequence of `Write` calls -/
+def lwRun (N : Int) : List WStep → Int × List WOut
+  | [] => (N, [])
+  | s :: r => ((lwRun (lwWrite N s).1 r).1, (lwWrite N s).2 :: (lwRun (lwWrite N s).1 r).2)
+
+/-- the values of `l.N` after each call -/
+def lwStates (N : Int) : List WStep → List Int
+  | [] => []
+  | s :: r => (lwWrite N s).1 :: lwStates (lwWrite N s).1 r
+
+def total (os : List WOut) : Nat := (os.map (·.n)).sum
+
+/-! ## (iv) the os/exec wait machine -/
+
+/-- a point in time in ms after the start of the call; `none` = never -/
+abbrev Time := Option Nat
+
+def tle : Time → Time → Bool
+  | _, none => true
+  | none, some _ => false
+  | some a, some b => decide (a ≤ b)
+def tlt (a b : Time) : Bool := !(tle b a)
+def tmin : Time → Time → Time
+  | none, b => b
+  | some a, none => some a
+  | some a, some b => some (min a b)
+def tmax : Time → Time → Time
+  | none, _ => none
+  | some _, none => none
+  | some a, some b => some (max a b)
+def tadd : Time → Nat → Time
+  | none, _ => none
+  | some a, d => some (a + d)
+
+/-- how `execCommander.Output` configures the command -/
+structure ExecCfg where
+  ctxBound : Bool             -- exec.CommandContext(ctx, …) rather than exec.Command(…)
+  waitDelay : Option Nat      -- cmd.WaitDelay in ms; none = unset
+  stdoutLimit : Option Nat    -- cmd.Stdout = io.LimitWriter(&buf, n)
+  stderrLimit : Option Nat
+  deriving DecidableEq, Repr
+
+/-- the configuration found in the source -/
+def codeCfg : ExecCfg :=
+  { ctxBound := Facts.commandContextBound, waitDelay := Facts.waitDelayMs,
+    stdoutLimit := Facts.stdoutLimit, stderrLimit := Facts.stderrLimit }
+
+/-- what the plugin and its descendants do in time -/
+structure Behaviour where
+  exitAt : Time      -- when the child process exits if left alone (none = never)
+  pipesAt : Time     -- when the last descendant lets go of the inherited stdout/stderr (none = never)
+  deriving DecidableEq, Repr
+
+structure WaitOut where
+  killed : Bool          -- the child was killed because the context ended first
+  exitObs : Time         -- when `Process.Wait` returns
+  delayExpired : Bool    -- the pipes were closed by force (`ErrWaitDelay` if nothing else failed)
+  ret : Time             -- when `cmd.Run()` returns
+  deriving DecidableEq, Repr
+
+/-- os/exec: a context-bound child is killed when the context ends; `Wait` returns when the
+child has exited and the copying goroutines are done, i.e. when all writers of the pipes
+have closed them - or, with a `WaitDelay`, when that delay has elapsed since the earlier of
+"context done" and "exit observed", at which point the pipes are closed by force. -/
+def wait (cfg : ExecCfg) (killLatency : Nat) (ctxEnd : Time) (b : Behaviour) : WaitOut :=
+  let killed := cfg.ctxBound && tlt ctxEnd b.exitAt
+  let exitObs := if killed then tadd ctxEnd killLatency else b.exitAt
+  let pipes := tmax exitObs b.pipesAt         -- the child itself holds its pipes while it lives
+  let start := if cfg.ctxBound then tmin ctxEnd exitObs else exitObs
+  match cfg.waitDelay with
+  | none => { killed, exitObs, delayExpired := false, ret := pipes }
+  | some d =>
+    { killed, exitObs, delayExpired := tlt (tadd start d) pipes,
+      ret := tmax exitObs (tmin pipes (tadd start d)) }
+
+/-! ## (ii), (iii) the decision of a plugin call -/
+
+inductive Kind | call | writer
+  deriving DecidableEq, Repr, FromJson, ToJson
+
+inductive Command | getMetadata | describeKey | generateSignature | generateEnvelope | verifySignature
+  deriving DecidableEq, Repr, FromJson, ToJson
+
+/-- what the plugin prints on stdout -/
+inductive StdoutKind
+  | reply         -- a JSON object of the shape of the command's response (for get-plugin-metadata: `metadata`)
+  | emptyObject   -- `{}` or an object with other keys only
+  | jsonNull      -- `null`
+  | wrongType     -- JSON that does not fit the response structure (`[]`, `"x"`, a field of the wrong type)
+  | notJson       -- not JSON (also: valid JSON followed by garbage, truncated JSON)
+  | empty
+  deriving DecidableEq, Repr, FromJson, ToJson
+
+/-- what the plugin prints on stderr -/
+inductive StderrKind
+  | empty
+  | errorObject   -- a JSON object; errorCode / errorMessage / errorMetadata as given by the input
+  | wrongType     -- JSON that does not fit (`[]`, `{"errorCode":5}`)
+  | notJson       -- not JSON (also a lone newline)
+  deriving DecidableEq, Repr, FromJson, ToJson
+
+/-- the metadata reply; an absent field and an empty one are the same thing to the decoder -/
+structure Meta where
+  name : String
+  description : String
+  version : String
+  url : String
+  capabilities : List String
+  contractVersions : List String
+  deriving DecidableEq, Repr, FromJson, ToJson
+
+def Meta.empty : Meta := ⟨"", "", "", "", [], []⟩
+
+inductive Res | ok | pluginError | executableFileError | malformedPluginError | other
+  deriving DecidableEq, Repr, FromJson, ToJson
+
+structure Input where
+  kind : Kind
+  -- kind = call --------------------------------------------------------------------------
+  command : Command
+  pluginName : String        -- the name given to NewCLIPlugin
+  executable : Bool          -- the plugin file can be started at all
+  exitCode : Nat
+  stdout : StdoutKind
+  stdoutSize : Nat           -- reply padded (inside a string) to this many bytes; 0 = not padded (small)
+  metadata : Meta
+  stderr : StderrKind
+  stderrSize : Nat           -- error message padded so that stderr has this many bytes; 0 = not padded
+  errCode : String
+  errMessage : Bool
+  errMetadata : Bool
+  exitAt : Option Nat        -- ms; none = never
+  pipesAt : Option Nat       -- ms; none = never
+  ctxEnd : Option Nat        -- ms; the context is cancelled / expires then; none = never
+  cancel : Bool              -- the context ends by cancellation rather than by its deadline
+  probes : List Nat          -- "had the call returned after this many ms?"
+  -- kind = writer ------------------------------------------------------------------------
+  limit : Int
+  steps : List WStep
+  deriving Repr, FromJson, ToJson
+
+structure Obs where
+  result : Res
+  code : String              -- the error code of a structured plugin error, "" otherwise
+  withinCap : Bool           -- what came back (decoded reply / error message) is not larger than the cap (and, for
+                             -- emitters of 500 MB and more, the heap high-water mark stayed near the cap)
+  inTime : Bool              -- returned within ctxEnd + 5 s + 3 s (true when the context never ends)
+  doneBy : List Bool         -- per probe
+  wouts : List WOut          -- kind = writer: what each Write returned
+  passed : Nat               --   bytes the underlying writer accepted in total
+  remaining : Int            --   l.N at the end
+  deriving DecidableEq, Repr, FromJson, ToJson
+
+/-- padding applies to a reply / to an error message only -/
+def effOutSize (i : Input) : Nat := if i.stdout == .reply then i.stdoutSize else 0
+def effErrSize (i : Input) : Nat :=
+  if i.stderr == .errorObject && i.errMessage then i.stderrSize else 0
+
+/-- the limit writer reports an error to the copying goroutine iff more than the limit arrives -/
+def over (limit : Option Nat) (size : Nat) : Bool :=
+  match limit with
+  | some l => decide (l < size)
+  | none => false
+
+/-- `json.Unmarshal(stdout, resp)` succeeds -/
+def decodes : StdoutKind → Bool
+  | .reply | .emptyObject | .jsonNull => true
+  | _ => false
+
+/-- `RequestError.UnmarshalJSON`: "incomplete json" iff code, message and metadata are all absent -/
+def errorObjectComplete (i : Input) : Bool := i.errCode != "" || i.errMessage || i.errMetadata
+
+/-- one condition of `validate` (by its source text): does it fire on `m`? -/
+def checkFires (m : Meta) : String → Option Bool
+  | "metadata.Name==\"\"" => some (m.name == "")
+  | "metadata.Description==\"\"" => some (m.description == "")
+  | "metadata.Version==\"\"" => some (m.version == "")
+  | "metadata.URL==\"\"" => some (m.url == "")
+  | "len(metadata.Capabilities)==0" => some m.capabilities.isEmpty
+  | "len(metadata.SupportedContractVersions)==0" => some m.contractVersions.isEmpty
+  | "!slices.Contains(metadata.SupportedContractVersions,plugin.ContractVersion)" =>
+      some (!m.contractVersions.contains Facts.contractVersion)
+  | _ => none
+
+/-- `validate`: the first check of the source that fires (an unknown check counts as firing) -/
+def validateErr (m : Meta) : Option String :=
+  Facts.validateChecks.find? (fun c => checkFires m c != some false)
+
+/-- the metadata the decoder ends up with -/
+def seenMeta (i : Input) : Meta := if i.stdout == .reply then i.metadata else Meta.empty
+
+/-- `run` + the method of `CLIPlugin` on top, given what `cmd.Run()` did -/
+def decide_ (cfg : ExecCfg) (i : Input) (w : WaitOut) : Res × String :=
+  -- err := cmd.Run(); err != nil
+  let failed := !i.executable || w.killed || i.exitCode != 0 || w.delayExpired ||
+    over cfg.stdoutLimit (effOutSize i) || over cfg.stderrLimit (effErrSize i)
+  if failed then
+    if !i.executable then (.executableFileError, "")          -- nothing ran, nothing on stderr
+    else if over cfg.stderrLimit (effErrSize i) then (.malformedPluginError, "")   -- truncated inside a string
+    else match i.stderr with
+      | .empty => (.executableFileError, "")                  -- len(stderr) == 0
+      | .errorObject =>
+        if errorObjectComplete i then (.pluginError, i.errCode)  -- return re
+        else (.malformedPluginError, "")                      -- "incomplete json"
+      | .wrongType | .notJson => (.malformedPluginError, "")
+  else if !decodes i.stdout then (.malformedPluginError, "")  -- json.Unmarshal(stdout, resp)
+  else if i.command == .getMetadata then
+    match validateErr (seenMeta i) with
+    | some _ => (.malformedPluginError, "")
+    | none => if (seenMeta i).name != i.pluginName then (.other, "") else (.ok, "")
+  else (.ok, "")
+
+def waitOf (cfg : ExecCfg) (i : Input) : WaitOut :=
+  if i.executable then wait cfg 0 i.ctxEnd ⟨i.exitAt, i.pipesAt⟩
+  else { killed := false, exitObs := some 0, delayExpired := false, ret := some 0 }
+
+def runCall (cfg : ExecCfg) (i : Input) : Obs :=
+  let w := waitOf cfg i
+  let r := decide_ cfg i w
+  let returned := match r.1 with
+    | .ok => effOutSize i
+    | .pluginError => effErrSize i
+    | _ => 0
+  { result := r.1, code := r.2,
+    withinCap := decide (returned ≤ specCap),
+    inTime := match i.ctxEnd with
+      | none => true
+      | some c => tle w.ret (some (c + specDelayMs + marginMs)),
+    doneBy := i.probes.map (fun p => tle w.ret (some p)),
+    wouts := [], passed := 0, remaining := 0 }
+
+def runWriter (i : Input) : Obs :=
+  let r := lwRun i.limit i.steps
+  { result := .ok, code := "", withinCap := true, inTime := true, doneBy := [],
+    wouts := r.2, passed := total r.2, remaining := r.1 }
+
+def runWith (cfg : ExecCfg) (i : Input) : Obs :=
+  match i.kind with
+  | .call => runCall cfg i
+  | .writer => runWriter i
+
+def run (i : Input) : Obs := runWith codeCfg i
+
+/-! ## the property over observables -/
+
+/-- the process ran and ended by itself with status 0 before the context ended -/
+def exitedOk (i : Input) : Bool := i.executable && i.exitCode == 0 && !(tlt i.ctxEnd i.exitAt)
+
+/-- mandatory fields, a supported contract version, and the name is the plugin's -/
+def specMetaOk (i : Input) : Bool :=
+  i.stdout == .reply &&
+  i.metadata.name != "" && i.metadata.description != "" && i.metadata.version != "" &&
+  i.metadata.url != "" && !i.metadata.capabilities.isEmpty &&
+  i.metadata.contractVersions.contains Facts.contractVersion &&
+  i.metadata.name == i.pluginName
+
+/-- the plugin printed its own structured error (and it fits under the cap) -/
+def printedStructured (i : Input) : Bool :=
+  i.executable && i.stderr == .errorObject && errorObjectComplete i && decide (effErrSize i ≤ specCap)
+
+/-- per-write checks of a limited writer started with `N` remaining -/
+def outsOk : Int → List WStep → List WOut → Bool
+  | _, [], [] => true
+  | N, s :: ss, o :: os =>
+    decide (o.n ≤ s.len) &&
+    (if N ≤ 0 then o.n == 0 && o.err == .limitExceeded
+     else o.err != .limitExceeded && decide ((o.n : Int) ≤ N)) &&
+    outsOk (N - (o.n : Int)) ss os
+  | _, _, _ => false
+
+def clauses (i : Input) (o : Obs) : Clauses :=
+  let call := i.kind == .call
+  let writer := i.kind == .writer
+  [ ("ok_only_if_clean_exit_and_reply_of_expected_shape",
+      !(call && o.result == .ok) || (exitedOk i && decodes i.stdout)),
+    ("metadata_ok_only_if_validated_and_named_like_the_plugin",
+      !(call && o.result == .ok && i.command == .getMetadata) || specMetaOk i),
+    ("failing_process_gives_structured_or_typed_error",
+      !(call && !exitedOk i) ||
+        (if printedStructured i then o.result == .pluginError && o.code == i.errCode
+         else o.result == .executableFileError || o.result == .malformedPluginError)),
+    ("over_cap_reply_is_never_accepted",
+      !(call && decide (specCap < effOutSize i)) || o.result != .ok),
+    ("returned_data_within_cap", !call || o.withinCap),
+    ("returns_within_bound_of_context_end", !(call && i.ctxEnd.isSome) || o.inTime),
+    ("writer_total_within_limit", !writer || decide (o.passed ≤ i.limit.toNat)),
+    ("writer_accounts_for_every_byte",
+      !writer || (o.passed == total o.wouts && o.remaining == i.limit - (o.passed : Int))),
+    ("writer_each_write_within_request_and_budget", !writer || outsOk i.limit i.steps o.wouts) ]
+
+def Holds (i : Input) (o : Obs) : Bool := (clauses i o).holds
+
+def judge := judgeWith run clauses
 
 end NotationModel.C17
